@@ -350,8 +350,8 @@ Qed.
 (* The (parts, chars) state of the tokenizer is represented by a list of flagged parts:  *)
 (* parts = map fst, chars = the indices of the parts flagged true.                       *)
 
-Definition fparts (fl : list (bytes * bool)) : list bytes := map fst fl.
-Definition fflags (fl : list (bytes * bool)) : list bool := map snd fl.
+Definition fparts (fl : list ((list N) * bool)) : list (list N) := map fst fl.
+Definition fflags (fl : list ((list N) * bool)) : list bool := map snd fl.
 
 Fixpoint cidx (off : nat) (bs : list bool) : list nat :=
   match bs with
@@ -359,12 +359,12 @@ Fixpoint cidx (off : nat) (bs : list bool) : list nat :=
   | b :: r => if b then off :: cidx (S off) r else cidx (S off) r
   end.
 
-Definition fchars (fl : list (bytes * bool)) : list nat := cidx 0 (fflags fl).
-Definition tflag (tk : list bytes) : list (bytes * bool) := map (fun t => (t, true)) tk.
-Definition clen (fl : list (bytes * bool)) : nat := length (concat (fparts fl)).
-Definition spans_fl (pos : nat) (fl : list (bytes * bool)) : list (nat * nat) :=
+Definition fchars (fl : list ((list N) * bool)) : list nat := cidx 0 (fflags fl).
+Definition tflag (tk : list (list N)) : list ((list N) * bool) := map (fun t => (t, true)) tk.
+Definition clen (fl : list ((list N) * bool)) : nat := length (concat (fparts fl)).
+Definition spans_fl (pos : nat) (fl : list ((list N) * bool)) : list (nat * nat) :=
   spans_from pos (fparts fl) (fflags fl).
-Definition allF (fl : list (bytes * bool)) : Prop := Forall (fun x => snd x = false) fl.
+Definition allF (fl : list ((list N) * bool)) : Prop := Forall (fun x => snd x = false) fl.
 
 Lemma fparts_app : forall a b, fparts (a ++ b) = fparts a ++ fparts b.
 Proof. intros a b. apply map_app. Qed.
@@ -555,9 +555,9 @@ Lemma js_inner_none_step : forall f fl d,
                        (fchars (fl ++ [(firstn (S i) d, false)])) (skipn (S i) d)
   end.
 Proof.
-  intros f fl d. rewrite fparts_snoc. cbn [js_inner].
+  intros f fl d. cbn [js_inner].
   destruct (find_quote d) as [i|]; [|reflexivity].
-  rewrite fchars_snoc_false. reflexivity.
+  rewrite fparts_snoc, fchars_snoc_false. reflexivity.
 Qed.
 
 Lemma close_test : forall b r q,
@@ -601,6 +601,16 @@ Proof.
   - apply IH; lia.
 Qed.
 
+Lemma ref_js_S : forall F pos b r,
+  ref_js (S F) pos (b :: r) =
+  if is_quote b then
+    match ref_string (S (length r)) b (S pos) r with
+    | Some (sp, e, rest) => sp ++ ref_js F e rest
+    | None => ref_js F (S pos) r
+    end
+  else ref_js F (S pos) r.
+Proof. reflexivity. Qed.
+
 Lemma ref_js_noquote : forall d F pos, find_quote d = None -> ref_js F pos d = [].
 Proof.
   induction d as [|b r IH]; intros F pos H; [destruct F; reflexivity|].
@@ -618,7 +628,7 @@ Proof.
   - destruct (find_quote r) as [i'|] eqn:Er; [|discriminate H].
     cbn [option_map] in H. injection H as H. subst i.
     destruct F as [|F]; [lia|]. cbn [length] in HF.
-    cbn [ref_js skipn]. rewrite Eb.
+    rewrite ref_js_S. rewrite Eb. cbn [skipn].
     rewrite (IH i' F (S pos) eq_refl) by lia.
     replace (S pos + i') with (pos + S i') by lia.
     apply ref_js_fuel; rewrite skipn_length; lia.
@@ -631,7 +641,7 @@ Lemma ref_js_quote_closed : forall q r F pos sp e rest,
 Proof.
   intros q r F pos sp e rest Hq HF E.
   destruct F as [|F]; [lia|]. cbn [length] in HF.
-  cbn [ref_js]. rewrite Hq, E. f_equal.
+  rewrite ref_js_S. rewrite Hq, E. f_equal.
   apply ref_string_rest in E. apply ref_js_fuel; lia.
 Qed.
 
@@ -642,7 +652,7 @@ Lemma ref_js_quote_open : forall q r F pos,
 Proof.
   intros q r F pos Hq HF E.
   destruct F as [|F]; [lia|]. cbn [length] in HF.
-  cbn [ref_js]. rewrite Hq, E. apply ref_js_fuel; lia.
+  rewrite ref_js_S. rewrite Hq, E. apply ref_js_fuel; lia.
 Qed.
 
 Lemma find_quote_spec : forall d i, find_quote d = Some i ->
@@ -720,7 +730,7 @@ Proof.
         unfold d. cbn [ref_string]. fold d. fold n. rewrite Ec.
         rewrite Href by lia.
         cbn [tflag map]. rewrite spans_fl_cons. cbn [concat]. rewrite app_length, Hlen.
-        f_equal. f_equal; [|lia]. reflexivity.
+        match goal with |- Some (_, ?x, _) = Some (_, ?y, _) => replace y with x by lia end. reflexivity.
     + right. exists (firstn n d :: tk).
       split; [|split; [|split]].
       * cbn [concat]. rewrite <- Hd'. symmetry. apply firstn_skipn.
@@ -728,4 +738,1066 @@ Proof.
       * rewrite Hjs. cbn [tflag map]. rewrite <- !app_assoc. reflexivity.
       * intros F pos. destruct F as [|F]; [reflexivity|].
         unfold d. cbn [ref_string]. fold d. fold n. rewrite Ec. rewrite Href. reflexivity.
+Qed.
+
+(* --- the text-mode scan: one call of the inner loop from instr = None --- *)
+Lemma inner_none : forall n d, length d <= n -> forall f fl, length d < f ->
+  exists instr add rest,
+    js_inner f None (fparts fl) (fchars fl) d =
+      (instr, fparts (fl ++ add), fchars (fl ++ add), rest) /\
+    concat (fparts add) ++ rest = d /\ ne_parts (fparts add) /\
+    ( (instr = None /\ find_quote rest = None /\
+       forall F pos, length d < F -> ref_js F pos d = spans_fl pos add)
+      \/
+      (exists q pre tk add1, instr = Some q /\ rest = [] /\
+         add = add1 ++ [(pre ++ [q], false)] ++ tflag tk /\
+         forall F pos, length d < F ->
+           ref_js F pos d =
+           spans_fl pos add1 ++ ref_js F (pos + clen add1 + length pre + 1) (concat tk)) ).
+Proof.
+  induction n as [|n IHn]; intros d Hn f fl Hf.
+  { destruct d as [|b r]; [|cbn [length] in Hn; lia].
+    destruct f as [|f]; [lia|]. rewrite js_inner_none_step. cbn [find_quote].
+    exists None, [], []. rewrite app_nil_r.
+    split; [reflexivity|]. split; [reflexivity|]. split; [constructor|].
+    left. split; [reflexivity|]. split; [reflexivity|].
+    intros F pos HF. destruct F; reflexivity. }
+  destruct f as [|f]; [lia|]. rewrite js_inner_none_step.
+  destruct (find_quote d) as [i|] eqn:Eq.
+  2:{ exists None, [], d. rewrite app_nil_r.
+      split; [reflexivity|]. split; [reflexivity|]. split; [constructor|].
+      left. split; [reflexivity|]. split; [exact Eq|].
+      intros F pos HF. rewrite spans_fl_nil. apply ref_js_noquote. exact Eq. }
+  destruct (find_quote_spec d i Eq) as [Hi [Hq [Hsk Hfi]]].
+  set (q := nth i d 0%N) in *.
+  set (d1 := skipn (S i) d) in *.
+  set (hd := firstn (S i) d) in *.
+  assert (Hhd : length hd = S i) by (unfold hd; apply firstn_length_le; lia).
+  assert (Hdec : d = hd ++ d1) by (unfold hd, d1; symmetry; apply firstn_skipn).
+  assert (Hd1 : length d1 + S i = length d) by (unfold d1; rewrite skipn_length; lia).
+  assert (Hrq : forall F pos, length d < F ->
+             ref_js F pos d = ref_js F (pos + i) (q :: d1)).
+  { intros F pos HF. rewrite (ref_js_skip d i F pos Eq HF). rewrite Hsk. reflexivity. }
+  destruct (inner_some f d1 q (fl ++ [(hd, false)]) ltac:(lia))
+    as [[tk [rest [f' [Hd' [Hne [Hf' [Hjs Href]]]]]]] | [tk [Hd' [Hne [Hjs Href]]]]].
+  - (* the string is closed: continue in text mode on rest *)
+    assert (Hlr : length rest + length (concat tk) + 1 = length d1).
+    { rewrite Hd'. rewrite app_length. cbn [length]. lia. }
+    destruct (IHn rest ltac:(lia) f' ((fl ++ [(hd, false)]) ++ tflag tk ++ [([q], false)]) Hf')
+      as [instr [add' [rest' [Hjs' [Hc' [Hne' Hcase]]]]]].
+    exists instr, ([(hd, false)] ++ tflag tk ++ [([q], false)] ++ add'), rest'.
+    split; [|split; [|split]].
+    + rewrite Hjs. rewrite Hjs'. rewrite <- !app_assoc. reflexivity.
+    + rewrite !fparts_app, fparts_tflag, !concat_app. cbn [fparts map fst concat].
+      rewrite app_nil_r. rewrite <- !app_assoc. rewrite Hc'.
+      cbn [app]. rewrite <- Hd'. symmetry. exact Hdec.
+    + rewrite !fparts_app, fparts_tflag. cbn [fparts map fst].
+      apply Forall_app. split.
+      { constructor; [|constructor]. intros E. rewrite E in Hhd. discriminate Hhd. }
+      apply Forall_app. split; [exact Hne|].
+      apply Forall_app. split; [|exact Hne'].
+      constructor; [discriminate|constructor].
+    + assert (Hrs : forall F pos, length d < F ->
+                ref_js F pos d =
+                spans_fl (pos + S i) (tflag tk) ++
+                ref_js F (pos + S i + length (concat tk) + 1) rest).
+      { intros F pos HF. rewrite (Hrq F pos HF).
+        rewrite (ref_js_quote_closed q d1 F (pos + i) _ _ _ Hq
+                   ltac:(cbn [length]; lia) (Href (S (length d1)) (S (pos + i)) ltac:(lia))).
+        replace (S (pos + i)) with (pos + S i) by lia. reflexivity. }
+      assert (Hsp : forall pos X,
+                spans_fl pos ([(hd, false)] ++ tflag tk ++ [([q], false)] ++ X) =
+                spans_fl (pos + S i) (tflag tk) ++
+                spans_fl (pos + S i + length (concat tk) + 1) X).
+      { intros pos X. cbn [app]. rewrite spans_fl_cons. rewrite Hhd.
+        rewrite spans_fl_app. rewrite clen_tflag. cbn [app]. rewrite spans_fl_cons.
+        cbn [length]. replace (pos + S i + length (concat tk) + 1)
+                        with (pos + S i + length (concat tk) + 1) by lia.
+        reflexivity. }
+      destruct Hcase as [[Hi1 [Hi2 Hi3]] | [q' [pre [tk' [add1 [Hi1 [Hi2 [Hi3 Hi4]]]]]]]].
+      * left. split; [exact Hi1|]. split; [exact Hi2|].
+        intros F pos HF. rewrite (Hrs F pos HF). rewrite Hsp.
+        rewrite Hi3 by lia. reflexivity.
+      * right. exists q', pre, tk', ([(hd, false)] ++ tflag tk ++ [([q], false)] ++ add1).
+        split; [exact Hi1|]. split; [exact Hi2|]. split.
+        { rewrite Hi3. rewrite <- !app_assoc. reflexivity. }
+        intros F pos HF. rewrite (Hrs F pos HF). rewrite Hsp.
+        rewrite Hi4 by lia. rewrite <- app_assoc. f_equal. f_equal. f_equal.
+        rewrite !clen_app, clen_tflag. cbn [app]. rewrite !clen_cons, clen_nil.
+        cbn [length]. lia.
+  - (* the data ends inside the string *)
+    exists (Some q), ([(hd, false)] ++ tflag tk), [].
+    split; [|split; [|split]].
+    + rewrite Hjs. rewrite <- !app_assoc. reflexivity.
+    + rewrite app_nil_r. rewrite fparts_app, fparts_tflag, concat_app.
+      cbn [fparts map fst concat]. rewrite app_nil_r. rewrite <- Hd'. symmetry. exact Hdec.
+    + rewrite fparts_app, fparts_tflag. cbn [fparts map fst].
+      apply Forall_app. split; [|exact Hne].
+      constructor; [|constructor]. intros E. rewrite E in Hhd. discriminate Hhd.
+    + right. exists q, (firstn i d), tk, [].
+      split; [reflexivity|]. split; [reflexivity|]. split.
+      { cbn [app]. rewrite <- Hfi. reflexivity. }
+      intros F pos HF. rewrite (Hrq F pos HF).
+      rewrite (ref_js_quote_open q d1 F (pos + i) Hq ltac:(cbn [length]; lia)
+                 (Href (S (length d1)) (S (pos + i)))).
+      rewrite spans_fl_nil, clen_nil. cbn [app]. rewrite <- Hd'.
+      rewrite firstn_length_le by lia. f_equal. lia.
+Qed.
+
+(* --- the rewind --- *)
+Lemma ends_with_byte_snoc : forall pre q, ends_with_byte q (pre ++ [q]) = true.
+Proof.
+  induction pre as [|a pre IH]; intros q.
+  - cbn [app ends_with_byte]. apply N.eqb_refl.
+  - cbn [app]. destruct (pre ++ [q]) as [|x l] eqn:E.
+    + apply app_eq_nil in E. destruct E as [_ E]. discriminate E.
+    + change (ends_with_byte q (a :: x :: l)) with (ends_with_byte q (x :: l)).
+      rewrite <- E. apply IH.
+Qed.
+
+Lemma find_rewind_spec : forall q C (P : list (list N)) (p : list N) (T : list (list N)),
+  ends_with_byte q p = true -> mem_nat (length P) C = false ->
+  (forall j, length P < j <= length P + length T -> mem_nat j C = true) ->
+  find_rewind q C (rev (P ++ [p] ++ T)) (length P + length T) = Some (length P).
+Proof.
+  intros q C P p T Hp HP. induction T as [|t T IH] using rev_ind; intros HT.
+  - rewrite app_nil_r. rewrite rev_app_distr. cbn [rev app length find_rewind].
+    rewrite Nat.add_0_r. rewrite Hp, HP. reflexivity.
+  - rewrite !app_assoc. rewrite rev_app_distr. cbn [rev app].
+    rewrite app_length. cbn [length].
+    replace (length P + (length T + 1)) with (S (length P + length T)) by lia.
+    cbn [find_rewind].
+    rewrite (HT (S (length P + length T))) by (rewrite app_length; cbn [length]; lia).
+    rewrite andb_false_r. rewrite <- app_assoc. apply IH.
+    intros j Hj. apply HT. rewrite app_length. cbn [length]. lia.
+Qed.
+
+Lemma mem_nat_fchars : forall fl j, mem_nat j (fchars fl) = nth j (fflags fl) false.
+Proof. intros fl j. unfold fchars. apply (mem_nat_cidx (fflags fl) 0 j). Qed.
+
+Lemma filter_all {A} (p : A -> bool) : forall l, (forall x, In x l -> p x = true) -> filter p l = l.
+Proof.
+  induction l as [|x l IH]; intros H; [reflexivity|].
+  cbn [filter]. rewrite (H x) by (left; reflexivity). f_equal. apply IH.
+  intros y Hy. apply H. right. exact Hy.
+Qed.
+
+Lemma filter_none {A} (p : A -> bool) : forall l, (forall x, In x l -> p x = false) -> filter p l = [].
+Proof.
+  induction l as [|x l IH]; intros H; [reflexivity|].
+  cbn [filter]. rewrite (H x) by (left; reflexivity). apply IH.
+  intros y Hy. apply H. right. exact Hy.
+Qed.
+
+Lemma nth_tflag_flags : forall tk j, j < length tk -> nth j (fflags (tflag tk)) false = true.
+Proof.
+  induction tk as [|t tk IH]; intros j Hj; [cbn [length] in Hj; lia|].
+  destruct j as [|j]; [reflexivity|]. cbn [tflag map fflags snd nth].
+  apply IH. cbn [length] in Hj. lia.
+Qed.
+
+Lemma rewind_state : forall (X : list (list N * bool)) y q tk,
+  snd y = false -> ends_with_byte q (fst y) = true ->
+  let full := X ++ [y] ++ tflag tk in
+  find_rewind q (fchars full) (rev (fparts full)) (pred (length (fparts full))) = Some (length X) /\
+  firstn (S (length X)) (fparts full) = fparts (X ++ [y]) /\
+  filter (fun c => Nat.ltb c (length X)) (fchars full) = fchars (X ++ [y]) /\
+  concat (skipn (S (length X)) (fparts full)) = concat tk.
+Proof.
+  intros X [p b] q tk Hb Hp. cbn [fst snd] in Hb, Hp. subst b. cbv zeta.
+  split; [|split; [|split]].
+  - set (C := fchars (X ++ [(p, false)] ++ tflag tk)).
+    rewrite !fparts_app, fparts_tflag. change (fparts [(p, false)]) with [p].
+    rewrite !app_length. cbn [length].
+    match goal with |- find_rewind _ _ _ ?n = _ =>
+      replace n with (length (fparts X) + length tk) by lia end.
+    replace (Some (length X)) with (Some (length (fparts X))) by (rewrite fparts_length; reflexivity).
+    unfold C.
+    apply find_rewind_spec.
+    + exact Hp.
+    + rewrite fparts_length. rewrite mem_nat_fchars. rewrite fflags_app.
+      rewrite app_nth2 by (rewrite fflags_length; lia).
+      rewrite fflags_length, Nat.sub_diag. reflexivity.
+    + intros j Hj. rewrite fparts_length in Hj. rewrite mem_nat_fchars.
+      rewrite fflags_app. rewrite app_nth2 by (rewrite fflags_length; lia).
+      rewrite fflags_length. rewrite fflags_app.
+      rewrite app_nth2 by (cbn [fflags map length]; lia).
+      cbn [fflags map length]. apply nth_tflag_flags. lia.
+  - rewrite app_assoc. rewrite fparts_app.
+    replace (S (length X)) with (length (fparts (X ++ [(p, false)])))
+      by (rewrite fparts_length, app_length; cbn [length]; lia).
+    apply firstn_len_app.
+  - rewrite fchars_app. rewrite filter_app.
+    rewrite filter_all.
+    2:{ intros c Hc. apply cidx_bounds in Hc. rewrite fflags_length in Hc.
+        apply Nat.ltb_lt. lia. }
+    rewrite filter_none.
+    2:{ intros c Hc. cbn [app fflags map snd cidx] in Hc. apply cidx_bounds in Hc.
+        apply Nat.ltb_ge. lia. }
+    rewrite app_nil_r. rewrite fchars_snoc_false. reflexivity.
+  - rewrite app_assoc. rewrite fparts_app.
+    replace (S (length X)) with (length (fparts (X ++ [(p, false)])))
+      by (rewrite fparts_length, app_length; cbn [length]; lia).
+    rewrite skipn_len_app. rewrite fparts_tflag. reflexivity.
+Qed.
+
+(* --- the outer loop --- *)
+Lemma js_outer_S : forall f parts chars d,
+  js_outer (S f) parts chars d =
+      let '(instr, parts1, chars1, rest) := js_inner (S (length d)) None parts chars d in
+      let parts2 := match rest with [] => parts1 | _ => parts1 ++ [rest] end in
+      match instr with
+      | None => Ok (parts2, chars1)
+      | Some q =>
+          match find_rewind q chars1 (rev parts2) (pred (length parts2)) with
+          | None => Err RuntimeError
+          | Some idx =>
+              js_outer f (firstn (S idx) parts2)
+                       (filter (fun c => Nat.ltb c idx) chars1)
+                       (concat (skipn (S idx) parts2))
+          end
+      end.
+Proof. reflexivity. Qed.
+
+Lemma outer_ok : forall n d, length d <= n -> forall f fl, length d < f ->
+  exists add,
+    js_outer f (fparts fl) (fchars fl) d = Ok (fparts (fl ++ add), fchars (fl ++ add)) /\
+    concat (fparts add) = d /\ ne_parts (fparts add) /\
+    forall F pos, length d < F -> ref_js F pos d = spans_fl pos add.
+Proof.
+  induction n as [n IHn] using lt_wf_ind. intros d Hn f fl Hf.
+  destruct f as [|f]; [lia|]. rewrite js_outer_S.
+  destruct (inner_none (length d) d (le_n _) (S (length d)) fl (Nat.lt_succ_diag_r _))
+    as [instr [add [rest [Hjs [Hc [Hne Hcase]]]]]].
+  rewrite Hjs.
+  destruct Hcase as [[Hi1 [Hi2 Hi3]] | [q [pre [tk [add1 [Hi1 [Hi2 [Hi3 Hi4]]]]]]]].
+  - subst instr. destruct rest as [|x rest].
+    + exists add. split; [reflexivity|]. rewrite app_nil_r in Hc.
+      split; [exact Hc|]. split; [exact Hne|]. exact Hi3.
+    + exists (add ++ [(x :: rest, false)]). split; [|split; [|split]].
+      * rewrite app_assoc. rewrite fparts_snoc, fchars_snoc_false. reflexivity.
+      * rewrite fparts_snoc. rewrite concat_app. cbn [concat]. rewrite app_nil_r. exact Hc.
+      * rewrite fparts_snoc. apply Forall_app. split; [exact Hne|].
+        constructor; [discriminate|constructor].
+      * intros F pos HF. rewrite spans_fl_app. rewrite spans_fl_cons, spans_fl_nil.
+        rewrite app_nil_r. apply Hi3. exact HF.
+  - subst instr rest. rewrite app_nil_r in Hc.
+    assert (Hfull : fl ++ add = (fl ++ add1) ++ [(pre ++ [q], false)] ++ tflag tk).
+    { rewrite Hi3. rewrite <- app_assoc. reflexivity. }
+    rewrite Hfull.
+    destruct (rewind_state (fl ++ add1) (pre ++ [q], false) q tk eq_refl
+                (ends_with_byte_snoc pre q)) as [R1 [R2 [R3 R4]]].
+    cbv zeta. unfold bytes in *. rewrite R1. cbv iota. rewrite R2, R3, R4.
+    assert (Hlen : length (concat tk) < length d).
+    { rewrite <- Hc. rewrite Hi3. rewrite !fparts_app, fparts_tflag, !concat_app.
+      cbn [fparts map fst concat]. rewrite !app_length. cbn [length]. lia. }
+    destruct (IHn (length (concat tk)) ltac:(lia) (concat tk) (le_n _) f
+                  ((fl ++ add1) ++ [(pre ++ [q], false)]) ltac:(lia))
+      as [add2 [Hjs2 [Hc2 [Hne2 Href2]]]].
+    exists (add1 ++ [(pre ++ [q], false)] ++ add2).
+    split; [|split; [|split]].
+    + rewrite Hjs2. rewrite <- !app_assoc. reflexivity.
+    + rewrite <- Hc. rewrite Hi3. rewrite !fparts_app, fparts_tflag, !concat_app.
+      rewrite Hc2. reflexivity.
+    + rewrite Hi3 in Hne. rewrite !fparts_app in Hne |- *.
+      apply Forall_app in Hne. destruct Hne as [Hn1 Hn2].
+      apply Forall_app in Hn2. destruct Hn2 as [Hn2 _].
+      apply Forall_app. split; [exact Hn1|]. apply Forall_app. split; [exact Hn2|exact Hne2].
+    + intros F pos HF. rewrite (Hi4 F pos HF). rewrite spans_fl_app. f_equal.
+      cbn [app]. rewrite spans_fl_cons. rewrite app_length. cbn [length].
+      rewrite Href2 by lia. f_equal. lia.
+Qed.
+
+(* --- header / footer / gap merging --- *)
+Definition js_header (parts : list (list N)) (chars : list nat) : list N * list (list N) * list nat :=
+    match chars with
+    | [] => ([], parts, chars)
+    | c0 :: _ =>
+        match c0 with
+        | O => ([], parts, chars)
+        | _ => (concat (firstn c0 parts), skipn c0 parts, map (fun c => (c - c0)%nat) chars)
+        end
+    end.
+
+Definition js_footer (parts : list (list N)) (chars : list nat) : list (list N) * list N :=
+    match chars with
+    | [] => (parts, [])
+    | _ => let off := S (last chars O) in
+           if Nat.ltb off (length parts)
+           then (firstn off parts, concat (skipn off parts))
+           else (parts, [])
+    end.
+
+Definition js_final (parts : list (list N)) (chars : list nat) : res split :=
+  let '(before, parts, chars) := js_header parts chars in
+  let '(parts, after) := js_footer parts chars in
+  let '(parts, chars) := js_gaps (length chars) O parts chars in
+  Ok {| sp_before := before; sp_parts := parts;
+        sp_red := map (fun i => mem_nat i chars) (seq 0 (length parts));
+        sp_after := after |}.
+
+Lemma split_jsstr_unfold : forall d,
+  split_jsstr d =
+  bind (js_outer (S (length d)) [] [] d) (fun v => let '(parts, chars) := v in js_final parts chars).
+Proof. reflexivity. Qed.
+
+(* equivalence of flagged lists up to re-bracketing of unflagged parts *)
+Definition fl_equiv (fl fl' : list (list N * bool)) : Prop :=
+  concat (fparts fl') = concat (fparts fl) /\
+  (forall pos, spans_fl pos fl' = spans_fl pos fl) /\
+  (ne_parts (fparts fl) -> ne_parts (fparts fl')).
+
+Lemma fl_equiv_refl : forall fl, fl_equiv fl fl.
+Proof. intros fl. split; [reflexivity|]. split; [reflexivity|]. intros H; exact H. Qed.
+
+Lemma fl_equiv_trans : forall a b c, fl_equiv a b -> fl_equiv b c -> fl_equiv a c.
+Proof.
+  intros a b c [H1 [H2 H3]] [K1 [K2 K3]]. split; [|split].
+  - rewrite K1. exact H1.
+  - intros pos. rewrite K2. apply H2.
+  - intros H. apply K3. apply H3. exact H.
+Qed.
+
+Lemma clen_eq : forall a b, concat (fparts a) = concat (fparts b) -> clen a = clen b.
+Proof. intros a b H. unfold clen. rewrite H. reflexivity. Qed.
+
+Lemma fl_equiv_ctx : forall A G G' B, fl_equiv G G' -> fl_equiv (A ++ G ++ B) (A ++ G' ++ B).
+Proof.
+  intros A G G' B [H1 [H2 H3]]. split; [|split].
+  - rewrite !fparts_app, !concat_app. rewrite H1. reflexivity.
+  - intros pos. rewrite !spans_fl_app. rewrite H2. rewrite (clen_eq G' G H1). reflexivity.
+  - rewrite !fparts_app. intros H. apply Forall_app in H. destruct H as [Ha H].
+    apply Forall_app in H. destruct H as [Hg Hb].
+    apply Forall_app. split; [exact Ha|]. apply Forall_app. split; [apply H3; exact Hg|exact Hb].
+Qed.
+
+Lemma concat_ne : forall (ps : list (list N)), ps <> [] -> ne_parts ps -> concat ps <> [].
+Proof.
+  intros ps Hne Hp. destruct ps as [|p ps]; [congruence|].
+  inversion Hp as [|x l Hx Hl]; subst. cbn [concat]. intros E.
+  apply app_eq_nil in E. destruct E as [E _]. contradiction.
+Qed.
+
+Lemma merge_gap_equiv : forall G, allF G -> G <> [] ->
+  fl_equiv G [(concat (fparts G), false)].
+Proof.
+  intros G HG Hne. split; [|split].
+  - cbn [fparts map fst concat]. apply app_nil_r.
+  - intros pos. rewrite spans_fl_cons, spans_fl_nil. rewrite allF_spans by exact HG. reflexivity.
+  - intros H. cbn [fparts map fst]. constructor; [|constructor].
+    apply concat_ne; [|exact H]. intros E. apply Hne.
+    destruct G; [reflexivity|discriminate E].
+Qed.
+
+(* the first flagged part *)
+Lemma first_true : forall fl off c cs, cidx off (fflags fl) = c :: cs ->
+  exists G p B, fl = G ++ (p, true) :: B /\ allF G /\ c = off + length G /\
+                cs = cidx (S c) (fflags B).
+Proof.
+  induction fl as [|[p b] fl IH]; intros off c cs H; [discriminate H|].
+  cbn [fflags map snd cidx] in H. destruct b.
+  - injection H as H1 H2. exists [], p, fl. cbn [app length]. split; [reflexivity|].
+    split; [constructor|]. split; [lia|]. subst c. symmetry. exact H2.
+  - destruct (IH (S off) c cs H) as [G [p' [B [E1 [E2 [E3 E4]]]]]].
+    exists ((p, false) :: G), p', B. cbn [app length]. split; [rewrite E1; reflexivity|].
+    split; [constructor; [reflexivity|exact E2]|]. split; [lia|exact E4].
+Qed.
+
+(* the last flagged part *)
+Lemma last_true : forall fl, fchars fl <> [] ->
+  exists M0 p T, fl = M0 ++ (p, true) :: T /\ allF T /\ last (fchars fl) 0 = length M0.
+Proof.
+  induction fl as [|[p b] fl IH] using rev_ind; intros H; [exfalso; apply H; reflexivity|].
+  destruct b.
+  - exists fl, p, []. split; [reflexivity|]. split; [constructor|].
+    rewrite fchars_snoc_true. rewrite last_last. apply fparts_length.
+  - rewrite fchars_snoc_false in H |- *.
+    destruct (IH H) as [M0 [p' [T [E1 [E2 E3]]]]].
+    exists M0, p', (T ++ [(p, false)]). split; [|split].
+    + rewrite E1. rewrite <- app_assoc. reflexivity.
+    + apply allF_app; [exact E2|]. constructor; [reflexivity|constructor].
+    + exact E3.
+Qed.
+
+Lemma js_gaps_S : forall f i parts chars,
+  js_gaps (S f) i parts chars =
+      if Nat.ltb (S i) (length chars) then
+        let c1 := nth i chars O in
+        let c2 := nth (S i) chars O in
+        if Nat.ltb 2 (c2 - c1) then
+          let parts' := firstn (S c1) parts
+                        ++ [concat (firstn (c2 - c1 - 1) (skipn (S c1) parts))]
+                        ++ skipn c2 parts in
+          let off := (c2 - c1 - 2)%nat in
+          let chars' := firstn (S i) chars ++ map (fun c => (c - off)%nat) (skipn (S i) chars) in
+          js_gaps f (S i) parts' chars'
+        else js_gaps f (S i) parts chars
+      else (parts, chars).
+Proof. reflexivity. Qed.
+
+Lemma gaps_ok : forall f i A0 p B, length (fchars A0) = i ->
+  exists fl', js_gaps f i (fparts ((A0 ++ [(p, true)]) ++ B)) (fchars ((A0 ++ [(p, true)]) ++ B))
+              = (fparts fl', fchars fl') /\
+              fl_equiv ((A0 ++ [(p, true)]) ++ B) fl'.
+Proof.
+  induction f as [|f IH]; intros i A0 p B Hi.
+  { exists ((A0 ++ [(p, true)]) ++ B). split; [reflexivity|apply fl_equiv_refl]. }
+  rewrite js_gaps_S.
+  set (A := A0 ++ [(p, true)]).
+  assert (HlA : length A = S (length A0)) by (unfold A; rewrite app_length; cbn [length]; lia).
+  assert (HcA : fchars A = fchars A0 ++ [length A0]).
+  { unfold A. rewrite fchars_snoc_true, fparts_length. reflexivity. }
+  assert (Hch : fchars (A ++ B) = fchars A0 ++ [length A0] ++ cidx (length A) (fflags B)).
+  { rewrite fchars_app, HcA, <- app_assoc. reflexivity. }
+  destruct (cidx (length A) (fflags B)) as [|c2 cs] eqn:EB.
+  { (* no further flagged part *)
+    replace (Nat.ltb (S i) (length (fchars (A ++ B)))) with false.
+    - exists (A ++ B). split; [reflexivity|apply fl_equiv_refl].
+    - symmetry. apply Nat.ltb_ge. rewrite Hch, !app_length. cbn [length]. lia. }
+  destruct (first_true B (length A) c2 cs EB) as [G [p2 [B' [E1 [E2 [E3 E4]]]]]].
+  replace (Nat.ltb (S i) (length (fchars (A ++ B)))) with true
+    by (symmetry; apply Nat.ltb_lt; rewrite Hch, !app_length; cbn [length]; lia).
+  assert (Hn1 : nth i (fchars (A ++ B)) 0 = length A0).
+  { rewrite Hch. rewrite app_nth2 by lia. rewrite Hi, Nat.sub_diag. reflexivity. }
+  assert (Hn2 : nth (S i) (fchars (A ++ B)) 0 = c2).
+  { rewrite Hch. rewrite app_nth2 by lia. rewrite Hi.
+    replace (S i - i) with 1 by lia. reflexivity. }
+  cbv zeta. rewrite Hn1, Hn2.
+  assert (HAB : A ++ B = (A0 ++ [(p, true)] ++ G ++ [(p2, true)]) ++ B').
+  { unfold A. rewrite E1. rewrite <- !app_assoc. reflexivity. }
+  destruct (Nat.ltb 2 (c2 - length A0)) eqn:Egap.
+  - (* merge the gap *)
+    apply Nat.ltb_lt in Egap.
+    assert (HG : 2 <= length G) by lia.
+    set (cG := concat (fparts G)).
+    assert (Hparts : firstn (S (length A0)) (fparts (A ++ B)) ++
+                     [concat (firstn (c2 - length A0 - 1) (skipn (S (length A0)) (fparts (A ++ B))))] ++
+                     skipn c2 (fparts (A ++ B)) =
+                     fparts (((A ++ [(cG, false)]) ++ [(p2, true)]) ++ B')).
+    { rewrite E1. rewrite !fparts_app.
+      replace (S (length A0)) with (length (fparts A)) by (rewrite fparts_length; lia).
+      rewrite firstn_len_app, skipn_len_app.
+      replace (c2 - length A0 - 1) with (length (fparts G)) by (rewrite fparts_length; lia).
+      rewrite firstn_len_app.
+      replace c2 with (length (fparts A ++ fparts G))
+        by (rewrite app_length, !fparts_length; lia).
+      rewrite (app_assoc (fparts A) (fparts G)). rewrite skipn_len_app.
+      cbn [fparts map fst app]. rewrite <- !app_assoc. reflexivity. }
+    assert (Hchars : firstn (S i) (fchars (A ++ B)) ++
+                     map (fun c => c - (c2 - length A0 - 2)) (skipn (S i) (fchars (A ++ B))) =
+                     fchars (((A ++ [(cG, false)]) ++ [(p2, true)]) ++ B')).
+    { rewrite fchars_app at 1 2. rewrite EB.
+      replace (S i) with (length (fchars A)) by (rewrite HcA, app_length; cbn [length]; lia).
+      rewrite firstn_len_app, skipn_len_app.
+      rewrite <- EB. rewrite E1. rewrite fflags_app, cidx_app.
+      rewrite (allF_cidx G _ E2). cbn [app].
+      rewrite <- !app_assoc. rewrite fchars_app. f_equal.
+      cbn [app fflags map snd cidx]. rewrite fflags_length.
+      replace (length A + length G) with (S (length A) + (c2 - length A0 - 2)) by lia.
+      cbn [map]. f_equal; [lia|].
+      change (S (S (length A) + (c2 - length A0 - 2))) with (S (S (length A)) + (c2 - length A0 - 2)).
+      apply cidx_shift. }
+    unfold bytes in *. rewrite Hparts, Hchars.
+    destruct (IH (S i) (A ++ [(cG, false)]) p2 B') as [fl' [Hjs Heq]].
+    { rewrite fchars_snoc_false, HcA, app_length. cbn [length]. lia. }
+    exists fl'. split; [exact Hjs|].
+    eapply fl_equiv_trans; [|exact Heq].
+    rewrite E1. rewrite <- !app_assoc.
+    apply (fl_equiv_ctx A G [(cG, false)] ((p2, true) :: B')).
+    apply merge_gap_equiv; [exact E2|]. intros E. rewrite E in HG. cbn [length] in HG. lia.
+  - (* short gap: nothing to merge *)
+    destruct (IH (S i) (A ++ G) p2 B') as [fl' [Hjs Heq]].
+    { rewrite fchars_app, (allF_cidx G _ E2), app_nil_r, HcA, app_length. cbn [length]. lia. }
+    assert (HAB2 : A ++ B = ((A ++ G) ++ [(p2, true)]) ++ B').
+    { rewrite E1. rewrite <- !app_assoc. reflexivity. }
+    rewrite HAB2. exists fl'. split; [exact Hjs|exact Heq].
+Qed.
+
+Lemma js_header_fl : forall H p0 R, allF H ->
+  js_header (fparts (H ++ (p0, true) :: R)) (fchars (H ++ (p0, true) :: R)) =
+  (concat (fparts H), fparts ((p0, true) :: R), fchars ((p0, true) :: R)).
+Proof.
+  intros H p0 R HH.
+  assert (Hc : fchars (H ++ (p0, true) :: R) = length H :: cidx (S (length H)) (fflags R)).
+  { rewrite fchars_app. unfold fchars. rewrite (allF_cidx H 0 HH). reflexivity. }
+  assert (Hu : (concat (firstn (length H) (fparts (H ++ (p0, true) :: R))),
+                skipn (length H) (fparts (H ++ (p0, true) :: R)),
+                map (fun c => c - length H) (fchars (H ++ (p0, true) :: R))) =
+               (concat (fparts H), fparts ((p0, true) :: R), fchars ((p0, true) :: R))).
+  { rewrite fparts_app. rewrite <- (fparts_length H).
+    rewrite firstn_len_app, skipn_len_app. f_equal.
+    rewrite fchars_app. unfold fchars at 1. rewrite (allF_cidx H 0 HH). cbn [app].
+    rewrite fparts_length. apply (cidx_shift (fflags ((p0, true) :: R)) 0 (length H)). }
+  unfold js_header. rewrite Hc. rewrite <- Hc.
+  destruct (length H) as [|k] eqn:Ek; [|exact Hu].
+  rewrite <- Hu. cbn [firstn concat skipn]. f_equal.
+  rewrite <- (map_id (fchars (H ++ (p0, true) :: R))) at 1.
+  apply map_ext. intros c. lia.
+Qed.
+
+Lemma js_footer_fl : forall M0 pl T, allF T ->
+  js_footer (fparts (M0 ++ (pl, true) :: T)) (fchars (M0 ++ (pl, true) :: T)) =
+  (fparts (M0 ++ [(pl, true)]), concat (fparts T)) /\
+  fchars (M0 ++ (pl, true) :: T) = fchars (M0 ++ [(pl, true)]).
+Proof.
+  intros M0 pl T HT.
+  assert (Hassoc : M0 ++ (pl, true) :: T = (M0 ++ [(pl, true)]) ++ T)
+    by (rewrite <- app_assoc; reflexivity).
+  assert (Hc : fchars (M0 ++ (pl, true) :: T) = fchars (M0 ++ [(pl, true)])).
+  { rewrite Hassoc. rewrite fchars_app. rewrite (allF_cidx T _ HT). apply app_nil_r. }
+  split; [|exact Hc].
+  unfold js_footer. rewrite Hc. rewrite fchars_snoc_true.
+  destruct (fchars M0 ++ [length (fparts M0)]) as [|x l] eqn:E.
+  { apply app_eq_nil in E. destruct E as [_ E]. discriminate E. }
+  rewrite <- E. rewrite last_last. cbv zeta. rewrite Hassoc. rewrite fparts_app.
+  replace (S (length (fparts M0))) with (length (fparts (M0 ++ [(pl, true)])))
+    by (rewrite !fparts_length, app_length; cbn [length]; lia).
+  destruct T as [|t T].
+  - replace (Nat.ltb _ _) with false.
+    + cbn [fparts map concat]. rewrite app_nil_r. reflexivity.
+    + symmetry. apply Nat.ltb_ge. cbn [fparts map]. rewrite app_nil_r. lia.
+  - replace (Nat.ltb _ _) with true.
+    + rewrite firstn_len_app, skipn_len_app. reflexivity.
+    + symmetry. apply Nat.ltb_lt. rewrite app_length. cbn [fparts map length]. lia.
+Qed.
+
+Lemma red_fl : forall fl,
+  map (fun i => mem_nat i (fchars fl)) (seq 0 (length (fparts fl))) = fflags fl.
+Proof.
+  intros fl. rewrite fparts_length, <- (fflags_length fl). apply (red_of_chars (fflags fl) 0).
+Qed.
+
+Lemma js_final_ok : forall fl,
+  exists s, js_final (fparts fl) (fchars fl) = Ok s /\
+    split_content s = concat (fparts fl) /\
+    (ne_parts (fparts fl) -> ne_parts (sp_parts s)) /\
+    length (sp_parts s) = length (sp_red s) /\
+    spans_of s = spans_fl 0 fl.
+Proof.
+  intros fl. destruct (fchars fl) as [|c0 cs] eqn:Ec.
+  - (* no string token at all *)
+    assert (HF : allF fl) by (apply (cidx_nil_allF fl 0); exact Ec).
+    unfold js_final, js_header, js_footer. cbn [length js_gaps].
+    eexists. split; [reflexivity|].
+    unfold split_content, spans_of. cbn [sp_before sp_parts sp_red sp_after].
+    split; [|split; [|split]].
+    + cbn [app]. apply app_nil_r.
+    + intros H; exact H.
+    + rewrite map_length, seq_length. reflexivity.
+    + rewrite <- Ec. rewrite red_fl. cbn [length]. reflexivity.
+  - destruct (first_true fl 0 c0 cs Ec) as [H [p0 [R [E1 [E2 [E3 E4]]]]]].
+    assert (HM1 : fchars ((p0, true) :: R) <> []) by (unfold fchars; cbn [fflags map snd cidx]; discriminate).
+    destruct (last_true ((p0, true) :: R) HM1) as [M0 [pl [T [F1 [F2 F3]]]]].
+    destruct (js_footer_fl M0 pl T F2) as [Hfoot Hfc].
+    (* the middle segment starts with the flagged part p0 *)
+    assert (HB : exists B, M0 ++ [(pl, true)] = ([] ++ [(p0, true)]) ++ B).
+    { destruct M0 as [|x M0'].
+      - cbn [app] in F1. injection F1 as F1a F1b. subst pl. exists []. reflexivity.
+      - cbn [app] in F1. injection F1 as F1a F1b. subst x. exists (M0' ++ [(pl, true)]). reflexivity. }
+    destruct HB as [B HB].
+    destruct (gaps_ok (length (fchars (([] ++ [(p0, true)]) ++ B))) 0 [] p0 B eq_refl) as [fl' [Hg [Q1 [Q2 Q3]]]].
+    rewrite <- Ec. rewrite E1. unfold js_final. rewrite (js_header_fl H p0 R E2).
+    rewrite F1. rewrite Hfoot. rewrite Hfc. rewrite HB. unfold bytes in *. rewrite Hg.
+    eexists. split; [reflexivity|].
+    unfold split_content, spans_of. cbn [sp_before sp_parts sp_red sp_after].
+    assert (Hfl : H ++ M0 ++ (pl, true) :: T = H ++ (([] ++ [(p0, true)]) ++ B) ++ T).
+    { rewrite <- HB. rewrite <- !app_assoc. reflexivity. }
+    rewrite Hfl.
+    split; [|split; [|split]].
+    + rewrite Q1. rewrite !fparts_app, !concat_app. reflexivity.
+    + rewrite !fparts_app. intros Hn. apply Forall_app in Hn. destruct Hn as [_ Hn].
+      apply Forall_app in Hn. destruct Hn as [Hn _]. apply Q3. rewrite !fparts_app. exact Hn.
+    + rewrite map_length, seq_length. reflexivity.
+    + rewrite red_fl. change (spans_from (length (concat (fparts H))) (fparts fl') (fflags fl'))
+        with (spans_fl (clen H) fl').
+      rewrite Q2. rewrite !spans_fl_app. rewrite (allF_spans H 0 E2). rewrite (allF_spans T _ F2).
+      cbn [app]. rewrite app_nil_r. rewrite <- !spans_fl_app. reflexivity.
+Qed.
+
+Lemma split_jsstr_full : forall d,
+  exists s, split_jsstr d = Ok s /\
+    split_content s = d /\ ne_parts (sp_parts s) /\
+    length (sp_parts s) = length (sp_red s) /\
+    spans_of s = js_reference d.
+Proof.
+  intros d. rewrite split_jsstr_unfold.
+  destruct (outer_ok (length d) d (le_n _) (S (length d)) [] (Nat.lt_succ_diag_r _))
+    as [add [Hjs [Hc [Hne Href]]]].
+  assert (Hjs0 : js_outer (S (length d)) [] [] d = Ok (fparts add, fchars add)) by exact Hjs.
+  rewrite Hjs0. cbn [bind].
+  destruct (js_final_ok add) as [s [Hs [S1 [S2 [S3 S4]]]]].
+  exists s. split; [exact Hs|]. split; [rewrite S1; exact Hc|].
+  split; [apply S2; exact Hne|]. split; [exact S3|].
+  rewrite S4. unfold js_reference. symmetry. apply Href. lia.
+Qed.
+
+Lemma split_jsstr_ok : splitter_ok split_jsstr /\ (forall d e, split_jsstr d = Err e -> False).
+Proof.
+  split.
+  - intros d s Hs. destruct (split_jsstr_full d) as [s' [Hs' [S1 [S2 [S3 _]]]]].
+    rewrite Hs in Hs'. injection Hs' as Hs'. subst s'.
+    split; [exact S1|]. split; [exact S2|exact S3].
+  - intros d e Hs. destruct (split_jsstr_full d) as [s' [Hs' _]].
+    rewrite Hs in Hs'. discriminate Hs'.
+Qed.
+
+Lemma split_jsstr_reference : forall d s, split_jsstr d = Ok s -> spans_of s = js_reference d.
+Proof.
+  intros d s Hs. destruct (split_jsstr_full d) as [s' [Hs' [_ [_ [_ S4]]]]].
+  rewrite Hs in Hs'. injection Hs' as Hs'. subst s'. exact S4.
+Qed.
+
+(* ------------------------------------------------------------------------------------ *)
+(* 4. split_attrs: every reducible atom is a complete attribute inside a tag            *)
+(* ------------------------------------------------------------------------------------ *)
+
+Lemma run_le : forall p (l : list N), run p l <= length l.
+Proof.
+  induction l as [|b r IH]; [cbn; lia|]. cbn [run length]. destruct (p b); lia.
+Qed.
+
+Lemma run_firstn : forall p (l : list N), forallb p (firstn (run p l) l) = true.
+Proof.
+  induction l as [|b r IH]; [reflexivity|]. cbn [run]. destruct (p b) eqn:E; [|reflexivity].
+  cbn [firstn forallb]. rewrite E, IH. reflexivity.
+Qed.
+
+Lemma run_skipn_head : forall p (l : list N) x r, skipn (run p l) l = x :: r -> p x = false.
+Proof.
+  induction l as [|b l IH]; intros x r H; [discriminate H|].
+  cbn [run] in H. destruct (p b) eqn:E.
+  - cbn [skipn] in H. apply IH in H. exact H.
+  - cbn [skipn] in H. injection H as H1 H2. subst x. exact E.
+Qed.
+
+Lemma run_app_stop : forall p (a b : list N), forallb p a = true ->
+  (forall x r, b = x :: r -> p x = false) -> run p (a ++ b) = length a.
+Proof.
+  induction a as [|y a IH]; intros b Ha Hb.
+  - cbn [app length]. destruct b as [|x r]; [reflexivity|].
+    cbn [run]. rewrite (Hb x r eq_refl). reflexivity.
+  - cbn [forallb] in Ha. apply andb_prop in Ha. destruct Ha as [H1 H2].
+    cbn [app run length]. rewrite H1. rewrite IH by assumption. reflexivity.
+Qed.
+
+Lemma alpha_not_ws : forall b, is_alpha b = true -> is_ws b = false.
+Proof.
+  intros b H. unfold is_ws. repeat rewrite orb_false_iff.
+  repeat split; apply N.eqb_neq; intros E; subst b; discriminate H.
+Qed.
+
+Lemma alpha_not_gt : forall b, is_alpha b = true -> (b =? 62)%N = false.
+Proof. intros b H. apply N.eqb_neq. intros E. subst b. discriminate H. Qed.
+
+Lemma tagchar_not_gt : forall b, is_tagchar b = true -> (b =? 62)%N = false.
+Proof. intros b H. apply N.eqb_neq. intros E. subst b. discriminate H. Qed.
+
+Definition shape_tail (tail : list N) : bool :=
+  match tail with
+  | [] => true
+  | e :: v =>
+      (e =? 61)%N &&
+      match v with
+      | q :: body =>
+          if ((q =? 39) || (q =? 34))%N then
+            match rev body with
+            | c :: ibody => (c =? q)%N && forallb (fun x => negb (x =? q)%N) ibody
+            | [] => false
+            end
+          else forallb (fun x => negb (is_ws x || (x =? 62)%N)) v
+      | [] => true
+      end
+  end.
+
+Lemma attr_shape_intro : forall ws b name tail,
+  forallb is_ws ws = true -> is_alpha b = true -> forallb is_namechar name = true ->
+  (forall x r, tail = x :: r -> is_namechar x = false) ->
+  attr_shape (ws ++ b :: name ++ tail) = shape_tail tail.
+Proof.
+  intros ws b name tail Hws Hb Hname Htail. unfold attr_shape. cbv zeta.
+  rewrite (run_app_stop is_ws ws (b :: name ++ tail) Hws).
+  2:{ intros x r E. injection E as E1 E2. subst x. apply alpha_not_ws. exact Hb. }
+  rewrite skipn_len_app. rewrite Hb. cbn [andb].
+  rewrite (run_app_stop is_namechar name tail Hname Htail).
+  rewrite skipn_len_app. reflexivity.
+Qed.
+
+Lemma a1_at_spec : forall ls d n, a1_at ls d = Some n ->
+  exists ws b name t r',
+    d = ws ++ b :: name ++ t :: r' /\
+    forallb is_ws ws = true /\ is_alpha b = true /\ forallb is_namechar name = true /\
+    is_namechar t = false /\
+    firstn n d = ws ++ b :: name ++ [t] /\
+    firstn (n - 1) d = ws ++ b :: name /\
+    skipn n d = r'.
+Proof.
+  intros ls d n H. unfold a1_at in H. cbv zeta in H.
+  destruct (Nat.eqb (run is_ws d) 0 && negb ls); [discriminate H|].
+  destruct (skipn (run is_ws d) d) as [|b r] eqn:E1; [discriminate H|].
+  destruct (is_alpha b) eqn:Hb; [|discriminate H].
+  destruct (skipn (run is_namechar r) r) as [|t r'] eqn:E2; [discriminate H|].
+  destruct ((t =? 61)%N || (t =? 62)%N || is_ws t); [|discriminate H].
+  injection H as H.
+  set (ws := firstn (run is_ws d) d) in *.
+  set (name := firstn (run is_namechar r) r) in *.
+  assert (Hd : d = ws ++ b :: name ++ t :: r').
+  { rewrite <- (firstn_skipn (run is_ws d) d) at 1. fold ws. rewrite E1.
+    rewrite <- (firstn_skipn (run is_namechar r) r) at 1. fold name. rewrite E2. reflexivity. }
+  assert (Hlw : length ws = run is_ws d) by (apply firstn_length_le; apply run_le).
+  assert (Hln : length name = run is_namechar r) by (apply firstn_length_le; apply run_le).
+  exists ws, b, name, t, r'.
+  split; [exact Hd|]. split; [apply run_firstn|]. split; [exact Hb|].
+  split; [apply run_firstn|]. split; [apply (run_skipn_head _ _ _ _ E2)|].
+  assert (Hd1 : d = (ws ++ b :: name ++ [t]) ++ r').
+  { rewrite Hd at 1. rewrite <- !app_assoc. cbn [app]. rewrite <- !app_assoc. reflexivity. }
+  assert (Hd2 : d = (ws ++ b :: name) ++ t :: r').
+  { rewrite Hd at 1. rewrite <- !app_assoc. reflexivity. }
+  assert (Hn1 : n = length (ws ++ b :: name ++ [t])).
+  { rewrite app_length. cbn [length]. rewrite app_length. cbn [length]. lia. }
+  assert (Hn2 : n - 1 = length (ws ++ b :: name)).
+  { rewrite app_length. cbn [length]. lia. }
+  split; [|split].
+  - rewrite Hn1. rewrite Hd1 at 1. apply firstn_len_app.
+  - rewrite Hn2. rewrite Hd2 at 1. apply firstn_len_app.
+  - rewrite Hn1. rewrite Hd1 at 1. apply skipn_len_app.
+Qed.
+
+Lemma find_byte_spec : forall p (d : list N) i, find_byte p d = Some i ->
+  exists x, firstn (S i) d = firstn i d ++ [x] /\ p x = true /\
+            forallb (fun y => negb (p y)) (firstn i d) = true.
+Proof.
+  induction d as [|b r IH]; intros i H; [discriminate H|].
+  cbn [find_byte] in H. destruct (p b) eqn:E.
+  - injection H as H. subst i. exists b. split; [reflexivity|]. split; [exact E|reflexivity].
+  - destruct (find_byte p r) as [i'|] eqn:Er; [|discriminate H].
+    cbn [option_map] in H. injection H as H. subst i.
+    destruct (IH i' eq_refl) as [x [H1 [H2 H3]]]. exists x. split; [|split].
+    + change (firstn (S (S i')) (b :: r)) with (b :: firstn (S i') r). rewrite H1. reflexivity.
+    + exact H2.
+    + cbn [firstn forallb]. rewrite E, H3. reflexivity.
+Qed.
+
+Lemma forallb_rev {A} (f : A -> bool) : forall l, forallb f (rev l) = forallb f l.
+Proof.
+  induction l as [|x l IH]; [reflexivity|].
+  cbn [rev]. rewrite forallb_app, IH. cbn [forallb]. rewrite andb_true_r. apply andb_comm.
+Qed.
+
+Lemma last_snoc : forall (l : list N) x, last (l ++ [x]) 0%N = x.
+Proof. intros l x. apply last_last. Qed.
+
+Lemma namechar_61 : is_namechar 61 = false.
+Proof. reflexivity. Qed.
+
+Lemma shape_valueless : forall ls d n, a1_at ls d = Some n -> attr_shape (firstn (n - 1) d) = true.
+Proof.
+  intros ls d n H.
+  destruct (a1_at_spec ls d n H) as [ws [b [name [t [r' [Hd [Hws [Hb [Hname [Ht [F1 [F2 F3]]]]]]]]]]]].
+  rewrite F2. rewrite <- (app_nil_r name).
+  rewrite (attr_shape_intro ws b name [] Hws Hb Hname); [reflexivity|].
+  intros x r E. discriminate E.
+Qed.
+
+Lemma shape_quoted : forall ls d n q d2 i,
+  a1_at ls d = Some n -> (last (firstn n d) 0 =? 61)%N = true -> skipn n d = q :: d2 ->
+  ((q =? 39) || (q =? 34))%N = true -> find_byte (fun b => (b =? q)%N) d2 = Some i ->
+  attr_shape (firstn n d ++ [q] ++ firstn (S i) d2) = true.
+Proof.
+  intros ls d n q d2 i H Hl Hs Hq Hf.
+  destruct (a1_at_spec ls d n H) as [ws [b [name [t [r' [Hd [Hws [Hb [Hname [Ht [F1 [F2 F3]]]]]]]]]]]].
+  rewrite F1 in Hl |- *.
+  replace (ws ++ b :: name ++ [t]) with ((ws ++ b :: name) ++ [t]) in Hl
+    by (rewrite <- app_assoc; reflexivity).
+  rewrite last_snoc in Hl. apply N.eqb_eq in Hl. subst t.
+  destruct (find_byte_spec _ d2 i Hf) as [x [G1 [G2 G3]]].
+  apply N.eqb_eq in G2. subst x.
+  replace ((ws ++ b :: name ++ [61%N]) ++ [q] ++ firstn (S i) d2)
+    with (ws ++ b :: name ++ (61%N :: q :: firstn (S i) d2))
+    by (rewrite <- !app_assoc; cbn [app]; rewrite <- !app_assoc; reflexivity).
+  rewrite (attr_shape_intro ws b name _ Hws Hb Hname).
+  2:{ intros x r E. injection E as E1 E2. subst x. reflexivity. }
+  unfold shape_tail. rewrite Hq. rewrite G1. rewrite rev_unit.
+  rewrite forallb_rev. rewrite G3. rewrite !N.eqb_refl. reflexivity.
+Qed.
+
+Lemma shape_unquoted : forall ls d n q d2 i,
+  a1_at ls d = Some n -> (last (firstn n d) 0 =? 61)%N = true -> skipn n d = q :: d2 ->
+  ((q =? 39) || (q =? 34))%N = false ->
+  find_byte (fun b => is_ws b || (b =? 62)%N) (q :: d2) = Some i ->
+  attr_shape (firstn n d ++ firstn i (q :: d2)) = true.
+Proof.
+  intros ls d n q d2 i H Hl Hs Hq Hf.
+  destruct (a1_at_spec ls d n H) as [ws [b [name [t [r' [Hd [Hws [Hb [Hname [Ht [F1 [F2 F3]]]]]]]]]]]].
+  rewrite F1 in Hl |- *.
+  replace (ws ++ b :: name ++ [t]) with ((ws ++ b :: name) ++ [t]) in Hl
+    by (rewrite <- app_assoc; reflexivity).
+  rewrite last_snoc in Hl. apply N.eqb_eq in Hl. subst t.
+  destruct (find_byte_spec _ (q :: d2) i Hf) as [x [G1 [G2 G3]]].
+  replace ((ws ++ b :: name ++ [61%N]) ++ firstn i (q :: d2))
+    with (ws ++ b :: name ++ (61%N :: firstn i (q :: d2)))
+    by (rewrite <- !app_assoc; cbn [app]; rewrite <- !app_assoc; reflexivity).
+  rewrite (attr_shape_intro ws b name _ Hws Hb Hname).
+  2:{ intros y r E. injection E as E1 E2. subst y. reflexivity. }
+  unfold shape_tail. change (61 =? 61)%N with true. cbn [andb].
+  destruct i as [|i]; [reflexivity|].
+  cbn [firstn] in G3 |- *. rewrite Hq. exact G3.
+Qed.
+
+(* non-reducible parts *)
+Lemma ends_gt_snoc : forall (l : list N) x, ends_gt (l ++ [x]) = (x =? 62)%N.
+Proof. intros l x. unfold ends_gt. rewrite rev_unit. reflexivity. Qed.
+
+Lemma ends_gt_forall : forall (l l' : list N),
+  forallb (fun x => negb (x =? 62)%N) l' = true -> l' <> [] -> ends_gt (l ++ l') = false.
+Proof.
+  intros l l' Hf Hne. destruct (exists_last Hne) as [l0 [x E]]. subst l'.
+  rewrite forallb_app in Hf. apply andb_prop in Hf. destruct Hf as [_ Hf].
+  cbn [forallb] in Hf. rewrite andb_true_r in Hf. apply negb_true_iff in Hf.
+  rewrite app_assoc. rewrite ends_gt_snoc. exact Hf.
+Qed.
+
+Lemma a2_none_head : forall x (l : list N), a2_at (x :: l) = None -> (x =? 62)%N = false.
+Proof.
+  intros x l H. destruct (x =? 62)%N eqn:E; [|reflexivity].
+  apply N.eqb_eq in E. subst x. discriminate H.
+Qed.
+
+Lemma attr_search_from_spec : forall d prev pos p k n,
+  attr_search_from prev pos d = Some (p, k, n) ->
+  pos <= p < pos + length d /\ forall j, j < p - pos -> a2_at (skipn j d) = None.
+Proof.
+  induction d as [|b r IH]; intros prev pos p k n H; [discriminate H|].
+  cbn [attr_search_from] in H.
+  destruct (a1_at (prev =? 10)%N (b :: r)) as [n1|].
+  { injection H as H1 H2 H3. subst p. cbn [length]. split; [lia|]. intros j Hj. lia. }
+  destruct (a2_at (b :: r)) as [n2|] eqn:E2.
+  { injection H as H1 H2 H3. subst p. cbn [length]. split; [lia|]. intros j Hj. lia. }
+  apply IH in H. destruct H as [H1 H2]. cbn [length]. split; [lia|].
+  intros j Hj. destruct j as [|j]; [exact E2|]. cbn [skipn]. apply H2. lia.
+Qed.
+
+Lemma nth_split_firstn : forall (l : list N) j, j < length l ->
+  firstn (S j) l = firstn j l ++ [nth j l 0%N] /\ skipn j l = nth j l 0%N :: skipn (S j) l.
+Proof.
+  induction l as [|b r IH]; intros j Hj; [cbn [length] in Hj; lia|].
+  destruct j as [|j]; [split; reflexivity|].
+  cbn [length] in Hj. destruct (IH j ltac:(lia)) as [H1 H2]. split.
+  - change (firstn (S (S j)) (b :: r)) with (b :: firstn (S j) r). rewrite H1. reflexivity.
+  - exact H2.
+Qed.
+
+Lemma junk_not_gt : forall d p k n,
+  attr_match d = None -> attr_search d = Some (p, k, n) -> ends_gt (firstn p d) = false.
+Proof.
+  intros d p k n Hm Hs. unfold attr_match in Hm.
+  destruct (a1_at true d); [discriminate Hm|].
+  destruct (a2_at d) eqn:E2; [discriminate Hm|].
+  unfold attr_search in Hs. destruct d as [|b r]; [discriminate Hs|].
+  apply attr_search_from_spec in Hs. destruct Hs as [H1 H2].
+  assert (Hall : forall j, j < p -> a2_at (skipn j (b :: r)) = None).
+  { intros j Hj. destruct j as [|j]; [exact E2|]. cbn [skipn]. apply H2. lia. }
+  destruct p as [|p']; [lia|].
+  assert (Hp : p' < length (b :: r)) by (cbn [length]; lia).
+  destruct (nth_split_firstn (b :: r) p' Hp) as [F1 F2].
+  rewrite F1. rewrite ends_gt_snoc.
+  specialize (Hall p' ltac:(lia)). rewrite F2 in Hall. apply a2_none_head in Hall. exact Hall.
+Qed.
+
+Lemma firstn_add : forall j n (d : list N), firstn (j + n) d = firstn j d ++ firstn n (skipn j d).
+Proof.
+  induction j as [|j IH]; intros n d; [reflexivity|].
+  destruct d as [|b r].
+  - cbn [plus firstn skipn app]. destruct n; reflexivity.
+  - cbn [plus firstn skipn app]. rewrite IH. reflexivity.
+Qed.
+
+Lemma tag_search_spec : forall d pos e, tag_search pos d = Some e ->
+  exists j n, e = pos + j + n /\ tag_at (skipn j d) = Some n.
+Proof.
+  induction d as [|c r IH]; intros pos e H; [discriminate H|].
+  cbn [tag_search] in H. destruct (tag_at (c :: r)) as [n|] eqn:E.
+  - injection H as H. exists 0, n. split; [lia|exact E].
+  - apply IH in H. destruct H as [j [n [H1 H2]]]. exists (S j), n. split; [lia|exact H2].
+Qed.
+
+Lemma forallb_impl {A} (f g : A -> bool) : forall l, (forall x, f x = true -> g x = true) ->
+  forallb f l = true -> forallb g l = true.
+Proof.
+  induction l as [|x l IH]; intros H Hf; [reflexivity|].
+  cbn [forallb] in *. apply andb_prop in Hf. destruct Hf as [H1 H2].
+  rewrite (H x H1), (IH H H2). reflexivity.
+Qed.
+
+Lemma firstn_eq_app : forall k (r a b : list N), r = a ++ b -> k = length a -> firstn k r = a.
+Proof. intros k r a b H1 H2. subst. apply firstn_len_app. Qed.
+
+Lemma tag_at_firstn : forall s n, tag_at s = Some n ->
+  tag_at (firstn n s) = Some n /\ length (firstn n s) = n /\
+  firstn n s <> [] /\ forall l, ends_gt (l ++ firstn n s) = false.
+Proof.
+  intros s n H. unfold tag_at in H. destruct s as [|c r]; [discriminate H|].
+  destruct (c =? 60)%N eqn:Ec; [|discriminate H]. cbv zeta in H.
+  destruct (skipn (run is_ws r) r) as [|b r2] eqn:E1; [discriminate H|].
+  destruct (is_alpha b) eqn:Hb; [|discriminate H]. injection H as H.
+  set (ws := firstn (run is_ws r) r) in *.
+  set (tg := firstn (run is_tagchar r2) r2) in *.
+  assert (Hlw : length ws = run is_ws r) by (apply firstn_length_le; apply run_le).
+  assert (Hlt : length tg = run is_tagchar r2) by (apply firstn_length_le; apply run_le).
+  assert (Hr : r = (ws ++ b :: tg) ++ skipn (run is_tagchar r2) r2).
+  { rewrite <- (firstn_skipn (run is_ws r) r) at 1. fold ws. rewrite E1.
+    rewrite <- (firstn_skipn (run is_tagchar r2) r2) at 1. fold tg.
+    rewrite <- app_assoc. reflexivity. }
+  assert (Hf : firstn n (c :: r) = c :: ws ++ b :: tg).
+  { subst n. change (1 + run is_ws r + 1 + run is_tagchar r2) with (S (run is_ws r + 1 + run is_tagchar r2)).
+    cbn [firstn]. f_equal.
+    apply (firstn_eq_app _ _ _ (skipn (run is_tagchar r2) r2) Hr).
+    rewrite app_length. cbn [length]. lia. }
+  rewrite Hf. split; [|split; [|split]].
+  - unfold tag_at. rewrite Ec. cbv zeta.
+    rewrite (run_app_stop is_ws ws (b :: tg) (run_firstn _ _)).
+    2:{ intros x r0 E. injection E as E3 E4. subst x. apply alpha_not_ws. exact Hb. }
+    rewrite skipn_len_app. rewrite Hb.
+    rewrite <- (app_nil_r tg) at 1.
+    rewrite (run_app_stop is_tagchar tg [] (run_firstn _ _)).
+    2:{ intros x r0 E. discriminate E. }
+    f_equal. lia.
+  - cbn [length]. rewrite app_length. cbn [length]. lia.
+  - discriminate.
+  - intros l.
+    replace (l ++ c :: ws ++ b :: tg) with ((l ++ c :: ws) ++ b :: tg)
+      by (rewrite <- app_assoc; reflexivity).
+    apply ends_gt_forall; [|discriminate].
+    cbn [forallb]. rewrite (alpha_not_gt b Hb). cbn [negb andb].
+    apply (forallb_impl is_tagchar); [|apply run_firstn].
+    intros x Hx. rewrite (tagchar_not_gt x Hx). reflexivity.
+Qed.
+
+Lemma opens_tag_suffix : forall (pre s : list N),
+  s <> [] -> tag_at s = Some (length s) -> opens_tag (pre ++ s) = true.
+Proof.
+  induction pre as [|a pre IH]; intros s Hne Ht.
+  - cbn [app]. destruct s as [|x s']; [congruence|].
+    cbn [opens_tag]. rewrite Ht. rewrite Nat.eqb_refl. reflexivity.
+  - cbn [app opens_tag]. rewrite (IH s Hne Ht). apply orb_true_r.
+Qed.
+
+Lemma tag_part : forall d e, tag_search 0 d = Some e ->
+  opens_tag (firstn e d) = true /\ ends_gt (firstn e d) = false.
+Proof.
+  intros d e H. apply tag_search_spec in H. destruct H as [j [n [H1 H2]]].
+  cbn [plus] in H1. subst e. rewrite firstn_add.
+  destruct (tag_at_firstn _ n H2) as [T1 [T2 [T3 T4]]].
+  split.
+  - apply opens_tag_suffix; [exact T3|]. rewrite T2. exact T1.
+  - apply T4.
+Qed.
+
+(* the walk invariant, in continuation form *)
+Definition walk_inv (in_tag : bool) (parts : list (list N)) (red : list bool) : Prop :=
+  exists b, (in_tag = true -> b = true) /\
+    forall qs ss, attrs_walk b qs ss = true -> attrs_walk false (parts ++ qs) (red ++ ss) = true.
+
+Lemma walk_step_red : forall parts red x, walk_inv true parts red -> attr_shape x = true ->
+  walk_inv true (parts ++ [x]) (red ++ [true]).
+Proof.
+  intros parts red x [b [Hb Hk]] Hx. rewrite (Hb eq_refl) in Hk.
+  exists true. split; [reflexivity|]. intros qs ss H.
+  rewrite <- !app_assoc. apply Hk. cbn [app attrs_walk]. rewrite Hx, H. reflexivity.
+Qed.
+
+Lemma walk_step_skip : forall parts red x, walk_inv true parts red -> ends_gt x = false ->
+  walk_inv true (parts ++ [x]) (red ++ [false]).
+Proof.
+  intros parts red x [b [Hb Hk]] Hx. rewrite (Hb eq_refl) in Hk.
+  exists true. split; [reflexivity|]. intros qs ss H.
+  rewrite <- !app_assoc. apply Hk. cbn [app attrs_walk]. rewrite Hx. exact H.
+Qed.
+
+Lemma walk_step_any : forall it parts red x, walk_inv it parts red ->
+  walk_inv false (parts ++ [x]) (red ++ [false]).
+Proof.
+  intros it parts red x [b [Hb Hk]].
+  exists (if b then negb (ends_gt x) else opens_tag x). split; [discriminate|].
+  intros qs ss H. rewrite <- !app_assoc. apply Hk. cbn [app attrs_walk].
+  destruct b; exact H.
+Qed.
+
+Lemma walk_step_tag : forall parts red x, walk_inv false parts red ->
+  opens_tag x = true -> ends_gt x = false -> walk_inv true (parts ++ [x]) (red ++ [false]).
+Proof.
+  intros parts red x [b [Hb Hk]] Ho He.
+  exists true. split; [reflexivity|]. intros qs ss H.
+  rewrite <- !app_assoc. apply Hk. cbn [app attrs_walk]. rewrite Ho, He.
+  destruct b; exact H.
+Qed.
+
+Lemma walk_weaken : forall it parts red, walk_inv it parts red -> walk_inv false parts red.
+Proof.
+  intros it parts red [b [Hb Hk]]. exists b. split; [discriminate|exact Hk].
+Qed.
+
+Lemma walk_final : forall it parts red, walk_inv it parts red -> attrs_walk false parts red = true.
+Proof.
+  intros it parts red [b [Hb Hk]]. specialize (Hk [] []). rewrite !app_nil_r in Hk.
+  apply Hk. reflexivity.
+Qed.
+
+Lemma attr_match_A1 : forall d n, attr_match d = Some (A1, n) -> a1_at true d = Some n.
+Proof.
+  intros d n H. unfold attr_match in H. destruct (a1_at true d) as [n1|].
+  - injection H as H. subst n1. reflexivity.
+  - destruct (a2_at d); discriminate H.
+Qed.
+
+Lemma attrs_loop_walk : forall fuel (in_tag : bool) parts red d parts' red',
+  attrs_loop fuel in_tag parts red d = Ok (parts', red') ->
+  walk_inv in_tag parts red -> attrs_walk false parts' red' = true.
+Proof.
+  induction fuel as [|f IH]; intros in_tag parts red d parts' red' HL Hinv; [discriminate HL|].
+  destruct d as [|b r].
+  { cbn [attrs_loop] in HL. injection HL as H1 H2. subst. apply (walk_final _ _ _ Hinv). }
+  rewrite attrs_loop_unfold in HL. cbv zeta in HL.
+  set (d := b :: r) in *.
+  destruct in_tag.
+  - destruct (attr_match d) as [[[|] n]|] eqn:Em.
+    + (* A1 *)
+      pose proof (attr_match_A1 d n Em) as Ha.
+      destruct (negb (last (firstn n d) 0%N =? 61)%N) eqn:El.
+      * apply (IH _ _ _ _ _ _ HL). apply walk_step_red; [exact Hinv|].
+        apply (shape_valueless true d n Ha).
+      * apply negb_false_iff in El.
+        destruct (skipn n d) as [|q d2] eqn:Es.
+        { apply (IH _ _ _ _ _ _ HL). apply (walk_weaken _ _ _ Hinv). }
+        destruct ((q =? 39) || (q =? 34))%N eqn:Eq.
+        -- destruct (find_byte (fun b0 => (b0 =? q)%N) d2) as [i|] eqn:Ef.
+           ++ apply (IH _ _ _ _ _ _ HL). apply walk_step_red; [exact Hinv|].
+              apply (shape_quoted true d n q d2 i Ha El Es Eq Ef).
+           ++ apply (IH _ _ _ _ _ _ HL). apply (walk_weaken _ _ _ Hinv).
+        -- destruct (find_byte (fun b0 => is_ws b0 || (b0 =? 62)%N) (q :: d2)) as [i|] eqn:Ef.
+           ++ apply (IH _ _ _ _ _ _ HL). apply walk_step_red; [exact Hinv|].
+              apply (shape_unquoted true d n q d2 i Ha El Es Eq Ef).
+           ++ apply (IH _ _ _ _ _ _ HL). apply (walk_weaken _ _ _ Hinv).
+    + (* A2 *)
+      apply (IH _ _ _ _ _ _ HL). apply (walk_step_any _ _ _ _ Hinv).
+    + destruct (attr_search d) as [[[p [|]] n]|] eqn:Es.
+      * apply (IH _ _ _ _ _ _ HL). apply walk_step_skip; [exact Hinv|].
+        apply (junk_not_gt d p A1 n Em Es).
+      * apply (IH _ _ _ _ _ _ HL). apply (walk_step_any _ _ _ _ Hinv).
+      * apply (IH _ _ _ _ _ _ HL). apply (walk_weaken _ _ _ Hinv).
+  - destruct (tag_search 0 d) as [e|] eqn:Et.
+    + apply (IH _ _ _ _ _ _ HL). destruct (tag_part d e Et) as [T1 T2].
+      apply walk_step_tag; assumption.
+    + injection HL as H1 H2. subst.
+      apply (walk_final false). apply (walk_step_any _ _ _ _ Hinv).
+Qed.
+
+Lemma split_attrs_walk : forall d s, split_attrs d = Ok s ->
+  attrs_walk false (sp_parts s) (sp_red s) = true.
+Proof.
+  intros d s Hs. unfold split_attrs in Hs.
+  destruct (attrs_loop (2 * length d + 2) false [] [] d) as [[parts red]|e] eqn:EL;
+    [|discriminate Hs].
+  cbn [bind] in Hs. injection Hs as Hs. subst s. cbn [sp_parts sp_red].
+  apply (attrs_loop_walk _ _ _ _ _ _ _ EL).
+  exists false. split; [discriminate|]. intros qs ss H. exact H.
 Qed.
